@@ -373,6 +373,25 @@ def check_compare(P, R, dec, call):
             cp = compare_parts(x)
             if cp and cp[1] is ast.Eq and {src(cp[0]), src(cp[2])} == {f'len({a})', f'len({b})'}:
                 has_len = True
+    # a difference *count* (0 only for equal strings): the per-position mismatches plus the difference of the lengths
+    for r in rets:
+        if r.value is None:
+            continue
+        ns_ = target.cfg.node_of_stmt(r)
+        rv = T.expand(target, r.value, ns_[0]) if ns_ else r.value
+        terms = []
+
+        def _terms(e):
+            if isinstance(e, ast.BinOp) and isinstance(e.op, ast.Add):
+                _terms(e.left)
+                _terms(e.right)
+            else:
+                terms.append(e)
+        _terms(rv)
+        for t_ in terms:
+            if isinstance(t_, ast.Call) and dotted(t_.func) == 'abs' and len(t_.args) == 1 and isinstance(t_.args[0], ast.BinOp) and isinstance(t_.args[0].op, ast.Sub) \
+                    and {src(t_.args[0].left), src(t_.args[0].right)} == {f'len({a})', f'len({b})'} and len(terms) >= 2:
+                has_len = True
     # also accept an explicit early `if len(a) != len(b): return False`
     for n in walk_shallow(target.node):
         if isinstance(n, ast.If):
